@@ -22,8 +22,8 @@ int main(int argc, char** argv) {
     const int ncases = thorough() ? 40 : 8;
     for (int c = 0; c < ncases; c++) {
         int nr = ext ? 2 * rng.range(3, thorough() ? 6 : 4) + 1 : rng.range(5, thorough() ? 11 : 8);
-        const int nths[] = {4, 8, 12, 16};
-        int nth = nths[rng.range(0, thorough() ? 3 : 2)];
+        const int nths[] = {4, 8, 12, 16, 6, 10};   // the standard smoothers accept every even ntheta; the extrapolated ones need ntheta % 4 == 0
+        int nth = nths[ext ? rng.range(0, thorough() ? 3 : 2) : rng.range(0, thorough() ? 5 : 4)];
         double Rmax = 1.3;
         std::vector<double> radii, angles;
         random_grid(rng, nr, nth, rng.range(0, 3) == 0, radii, angles, Rmax);
